@@ -1,5 +1,5 @@
 use std::{
-  cmp::max,
+  cmp::{max, min},
   collections::{BTreeMap, HashMap},
   ops::Bound::{Excluded, Included},
   sync::{Arc, Mutex},
@@ -134,12 +134,23 @@ pub(crate) struct TopicCache {
   // sequence_numbers is an index to "changes" by GUID and SN
   sequence_numbers: BTreeMap<GUID, BTreeMap<SequenceNumber, Timestamp>>,
 
-  // Keep track of how far we have "reliably" received samples from each Writer
-  // This means that all data up to this point has either been received, or
-  // we have been notified (GAP or HEARTBEAT) that is not available and never will.
-  // Therefore, data before the marker SN can be handed off to a Reliable DataReader.
-  // Initially, we consider the marker for each Writer (GUID) to be SequenceNumber::new(1)
-  received_reliably_before: BTreeMap<GUID, SequenceNumber>,
+  // Keep track of how far each local Reader has "reliably" received samples from
+  // each Writer. This means that all data up to this point has either been
+  // received, or we have been notified (GAP or HEARTBEAT) that is not available
+  // and never will. Therefore, data before the marker SN can be handed off to the
+  // Reliable DataReader of that Reader.
+  // Initially, we consider the marker to be SequenceNumber::new(1)
+  //
+  // The key is (Reader GUID, Writer GUID): Several Readers of one participant can
+  // be on the same topic and share this cache, but each of them has its own
+  // conversation with the Writer, i.e. its own losses, repairs and GAPs.
+  received_reliably_before: BTreeMap<(GUID, GUID), SequenceNumber>,
+
+  // Sequence number ranges [from, to) that a Writer has declared irrelevant (GAP)
+  // to a local Reader, by (Reader GUID, Writer GUID). The change itself may still
+  // be (or later appear) in this cache, because another local Reader got it.
+  // The ranges of one key do not overlap or touch.
+  irrelevant_to_reader: BTreeMap<(GUID, GUID), BTreeMap<SequenceNumber, SequenceNumber>>,
 }
 
 impl TopicCache {
@@ -155,6 +166,7 @@ impl TopicCache {
       changes_reallocated_up_to: Timestamp::ZERO,
       sequence_numbers: BTreeMap::new(),
       received_reliably_before: BTreeMap::new(),
+      irrelevant_to_reader: BTreeMap::new(),
     };
 
     new_self.update_keep_limits(topic_qos);
@@ -198,9 +210,52 @@ impl TopicCache {
 
   // Returns true if the "reliably_received_before"-marker was actually moved
   // forward and false if not.
-  pub fn mark_reliably_received_before(&mut self, writer: GUID, sn: SequenceNumber) -> bool {
-    let prev_sn = self.received_reliably_before.insert(writer, sn);
+  pub fn mark_reliably_received_before(
+    &mut self,
+    reader: GUID,
+    writer: GUID,
+    sn: SequenceNumber,
+  ) -> bool {
+    let prev_sn = self.received_reliably_before.insert((reader, writer), sn);
     prev_sn.unwrap_or(SequenceNumber::new(1)) < sn
+  }
+
+  // The Writer has told the Reader (GAP) that the changes in [from, to_before)
+  // are not for it. Its DataReader must not be given those, even if they are in
+  // the cache on behalf of some other Reader.
+  pub fn mark_irrelevant_to_reader(
+    &mut self,
+    reader: GUID,
+    writer: GUID,
+    from: SequenceNumber,
+    to_before: SequenceNumber,
+  ) {
+    if from >= to_before {
+      return;
+    }
+    let ranges = self.irrelevant_to_reader.entry((reader, writer)).or_default();
+    // merge with the ranges that overlap or touch the new one
+    let (mut from, mut to_before) = (from, to_before);
+    let merged: Vec<SequenceNumber> = ranges
+      .range(..=to_before)
+      .filter(|(_f, t)| **t >= from)
+      .map(|(f, _t)| *f)
+      .collect();
+    for f in merged {
+      if let Some(t) = ranges.remove(&f) {
+        from = min(from, f);
+        to_before = max(to_before, t);
+      }
+    }
+    ranges.insert(from, to_before);
+  }
+
+  fn is_irrelevant_to_reader(&self, reader: GUID, writer: GUID, sn: SequenceNumber) -> bool {
+    self
+      .irrelevant_to_reader
+      .get(&(reader, writer))
+      .and_then(|ranges| ranges.range(..=sn).next_back())
+      .is_some_and(|(_from, to_before)| sn < *to_before)
   }
 
   /// Where a reader that does not want anything that is already here should
@@ -316,6 +371,7 @@ impl TopicCache {
 
   pub fn get_changes_in_range_reliable<'a>(
     &'a self,
+    reader: GUID,
     last_read_sn: &'a BTreeMap<GUID, SequenceNumber>,
   ) -> Box<dyn Iterator<Item = (Timestamp, &'a CacheChange)> + 'a> {
     // For each writer, the next unread change that is known to be reliably
@@ -332,11 +388,12 @@ impl TopicCache {
           .get(guid)
           .cloned()
           .unwrap_or(SequenceNumber::zero());
-        let upper_bound_exc = self.reliable_before(*guid);
+        let upper_bound_exc = self.reliable_before(reader, *guid);
         // make sure lower < upper, so that `.range()` does not panic.
         let upper_bound_exc = max(upper_bound_exc, lower_bound_exc.plus_1());
         sn_map
           .range((Excluded(lower_bound_exc), Excluded(upper_bound_exc)))
+          .filter(|(sn, _t)| !self.is_irrelevant_to_reader(reader, *guid, **sn))
           .filter_map(|(_sn, t)| self.get_change(t).map(|cc| (*t, cc)))
           .next()
       })
@@ -345,10 +402,10 @@ impl TopicCache {
     Box::new(next_per_writer.into_iter())
   }
 
-  fn reliable_before(&self, writer: GUID) -> SequenceNumber {
+  fn reliable_before(&self, reader: GUID, writer: GUID) -> SequenceNumber {
     self
       .received_reliably_before
-      .get(&writer)
+      .get(&(reader, writer))
       .cloned()
       .unwrap_or(SequenceNumber::default())
     // Sequence numbering starts at default(), so anything before that is always
